@@ -114,11 +114,22 @@ def mutants(path):
             code_for_ops = re.sub(r'"[^"]*"', lambda m: " " * len(m.group(0)), code)
         else:
             code_for_ops = code
-        for pat, rep in (SUBS2 if OPSET == 2 else SUBS):
+        for pat, rep in ([] if OPSET == 3 else SUBS2 if OPSET == 2 else SUBS):
             for m in re.finditer(pat, code_for_ops):
                 new = l[:m.start()] + rep + l[m.end():]
                 if new != l:
                     yield (i, f"{pat} -> {rep}", new)
+        if OPSET == 3:
+            # third operator set: swap two adjacent simple statements of the same indentation; duplicate a statement
+            simple = re.compile(r"^(\s*)(self\.[\w.]+ = [^;]+;|self\.[\w.]+\([^;]*\)\??;|[\w.]+\.[\w]+\([^;]*\)\??;|\*?\w+ [+-]?= [^;]+;)\s*$")
+            m1 = simple.match(l)
+            if m1 and i + 1 < len(lines):
+                m2 = simple.match(lines[i + 1])
+                if m2 and m1.group(1) == m2.group(1) and l.strip() != lines[i + 1].strip():
+                    yield (i, "swap with next statement", lines[i + 1] + "\n" + l + "\n" + m1.group(1) + "// (swapped)", True)
+            if m1 and ("push" in l or "+=" in l or "-=" in l or "enqueue" in l or "extend" in l):
+                yield (i, "duplicate statement", l + "\n" + l)
+            continue
         if (DELETABLE2 if OPSET == 2 else DELETABLE).match(l):
             yield (i, "delete statement", re.match(r"^\s*", l).group(0) + "// deleted")
 
@@ -150,7 +161,9 @@ def main():
     summary = {"not-compiling": 0, "killed-by-tests": 0, "caught": 0, "NOT-CAUGHT": 0}
     for path in files:
         orig = open(os.path.join(REPO, path)).read()
-        for (i, what, new) in mutants(path):
+        for mut in mutants(path):
+            i, what, new = mut[0], mut[1], mut[2]
+            two_lines = len(mut) > 3
             n += 1
             if n <= start:
                 continue
@@ -159,6 +172,8 @@ def main():
             lines = orig.split("\n")
             old_line = lines[i]
             lines[i] = new
+            if two_lines:
+                lines[i + 1] = ""
             open(os.path.join(REPO, path), "w").write("\n".join(lines))
             t0 = time.time()
             rec = {"n": n, "file": path, "line": i + 1, "mutation": what, "old": old_line.strip(), "new": new.strip()}
